@@ -18,7 +18,7 @@ Ltac Zify.zify_post_hook ::= idtac.
 Theorem code_OctalParse : forall fuel dst src, (length src < fuel)%nat ->
   g_OctalParse fuel dst src = mmap (parse_res dst) (lift (octal_parse (length dst) src)).
 Proof.
-  intros fuel dst src Hf. unfold g_OctalParse. set (K1 := g_parseUint). repeat autounfold with go2v. subst K1. step_code.
+  intros fuel dst src Hf. unfold g_OctalParse. repeat autounfold with go2v_aux. step_code.
   rewrite octal_parse_eq. unfold esc_parse.
   rewrite <- (gparse_fuel 4 1 [92] 8 255 byte_emit (length dst) src ltac:(lia) ltac:(lia) fuel (S (length src)) 0 0 [] ltac:(lia) ltac:(lia)).
   match goal with |- match while _ ?c ?b ?p ?s0 with Ret a => @?K a | Panic => Panic | NoFuel => NoFuel end = _ =>
@@ -31,7 +31,7 @@ Qed.
 Theorem code_HexParse : forall fuel dst src, (length src < fuel)%nat ->
   g_HexParse fuel dst src = mmap (parse_res dst) (lift (hex_parse (length dst) src)).
 Proof.
-  intros fuel dst src Hf. unfold g_HexParse. set (K1 := g_parseUint). repeat autounfold with go2v. subst K1. step_code.
+  intros fuel dst src Hf. unfold g_HexParse. repeat autounfold with go2v_aux. step_code.
   rewrite hex_parse_eq. unfold esc_parse.
   rewrite <- (gparse_fuel 4 2 [92; 120] 16 255 byte_emit (length dst) src ltac:(lia) ltac:(lia) fuel (S (length src)) 0 0 [] ltac:(lia) ltac:(lia)).
   match goal with |- match while _ ?c ?b ?p ?s0 with Ret a => @?K a | Panic => Panic | NoFuel => NoFuel end = _ =>
@@ -44,7 +44,7 @@ Qed.
 Theorem code_UnicodeParse : forall fuel dst src, (length src < fuel)%nat ->
   g_UnicodeParse fuel dst src = mmap (parse_res dst) (lift (unicode_parse (length dst) src)).
 Proof.
-  intros fuel dst src Hf. unfold g_UnicodeParse. set (K1 := g_parseUint). repeat autounfold with go2v. subst K1. step_code.
+  intros fuel dst src Hf. unfold g_UnicodeParse. repeat autounfold with go2v_aux. step_code.
   rewrite unicode_parse_eq. unfold esc_parse.
   rewrite <- (gparse_fuel 10 2 [92; 85] 16 4294967295 unicode_emit (length dst) src ltac:(lia) ltac:(lia) fuel (S (length src)) 0 0 [] ltac:(lia) ltac:(lia)).
   match goal with |- match while _ ?c ?b ?p ?s0 with Ret a => @?K a | Panic => Panic | NoFuel => NoFuel end = _ =>
